@@ -407,7 +407,7 @@ def run_history(rec, rng, sh, hidx, length):
         # 1e-14 to every element length, hence the absolute term for rods); the model then uses the verified reported
         # value so that this 3e-13 relative offset does not have to be carried through every tolerance.
         s_rep = float(it.forcing_grid.get_maximum_lagrangian_grid_spacing())
-        s_tol = 64 * np.finfo(np.float64).eps * b.s_max + (4e-14 if s["kind"] in ("nodal", "elem", "edge", "surface") else 0.0)
+        s_tol = 64 * np.finfo(np.float64).eps * b.s_max + (2e-13 if s["kind"] in ("nodal", "elem", "edge", "surface") else 0.0)
         r = abs(s_rep - b.s_max) / s_tol
         rec.stat("s_max", r)
         if r > 1:
